@@ -573,6 +573,17 @@ impl FunctionCompiler<'_> {
 
                     assert!(!dest_ty.is_aggregate());
 
+                    // the operation is done in the common type of both sides (`u8 += i32` is
+                    // done in i32), the result has to be brought back to the type of the
+                    // destination or the store is wider than the destination
+                    let value_ty = self.tys[self.loc][assign_body.value];
+                    let res = match dest_ty.max(&value_ty) {
+                        Some(max_ty) if max_ty != **dest_ty => {
+                            self.cast(res, max_ty.into(), *dest_ty)
+                        }
+                        _ => res,
+                    };
+
                     dest.write_all(res, *dest_ty, self.module, &mut self.builder);
                 } else {
                     self.compile_and_cast_into_memory(assign_body.value, *dest_ty, dest);
